@@ -31,6 +31,14 @@ Proof.
   destruct Ha as [Ha | [Hin _]]; [exact (Hne Ha) | exact (Hni Hin)].
 Qed.
 
+(* websocket paths of the http server: each path's allow-list governs that path only *)
+Theorem c03_http_paths : forall tbl allows lists i al served req,
+  startup_http tbl allows = Some lists ->
+  nth_error allows i = Some al -> nth_error lists i = Some served ->
+  route served req = (if match al with [] => true | _ => existsb (fun n => bytes_eqb n req) al end
+                      then first_named tbl req else None).
+Proof. exact http_paths. Qed.
+
 Example c03_nonvacuous :
   serve KSocket [([115; 115; 104]%N, 0%nat); ([119; 101; 98]%N, 1%nat)] [[119; 101; 98]%N] [119; 101; 98]%N = Dial 1%nat
   /\ serve KSocket [([115; 115; 104]%N, 0%nat); ([119; 101; 98]%N, 1%nat)] [[119; 101; 98]%N] [115; 115; 104]%N = Refuse.
